@@ -76,7 +76,7 @@ var c04TokFieldAlias = map[string][]string{
 	"Ellipsis": {"Ellipsis"}, "Star": {"Star"}, "Arrow": {"Arrow"}, "Colon": {"Colon"}, "Func": {"Func"},
 	"Go": {"Go"}, "Defer": {"Defer"}, "If": {"If"}, "For": {"For"}, "Switch": {"Switch"}, "Select": {"Select"},
 	"Case": {"Case"}, "Return": {"Return"}, "Interface": {"Interface"}, "Struct": {"Struct"}, "Map": {"Map"},
-	"Begin": {"Begin"}, "Package": {"Package"}, "Range": {"For"}, "Assign": {"Assign"},
+	"Begin": {"Begin"}, "Package": {"Package"}, "Range": {"Range"}, "Assign": {"Assign"},
 }
 
 func c04Check(in c04Input) (key, what string) {
@@ -213,7 +213,8 @@ func c04Check(in c04Input) (key, what string) {
 		default:
 			av := reflect.ValueOf(an).Elem()
 			// named for a child field
-			if fv := av.FieldByName(m.point); fv.IsValid() && fv.Type() != posType {
+			_, isIf := an.(*ast.IfStmt) // IfStmt.Decs.Else is named for the else keyword: it precedes the Else child
+			if fv := av.FieldByName(m.point); fv.IsValid() && fv.Type() != posType && !(isIf && m.point == "Else") {
 				if cn, ok := fv.Interface().(ast.Node); ok && !reflect.ValueOf(cn).IsNil() {
 					if lt := lastTokenPos(cn); lt.IsValid() && p <= lt {
 						return "c04-place", fmt.Sprintf("%s (point %s of %T) at %d is not after child %s ending at %d", m.text, m.point, m.node, p, m.point, lt)
@@ -274,13 +275,16 @@ func lastTokenPos(n ast.Node) token.Pos {
 }
 
 func c04Prop(c *Ctx) {
-	c.Res.Rule = "hand corpus + $GOROOT/src sample; per source 3 random assignments of uniquely numbered block/line comments and newline decorations to (node, point) pairs at densities 1/2, 1/5, 1/12; non-trivial = distinct (source, seed, density, kinds) with at least one comment placed"
+	c.Res.Rule = "hand corpus + $GOROOT/src sample; per source one saturating assignment (a block comment on every point of every node) and 3 random assignments of uniquely numbered block/line comments and newline decorations to (node, point) pairs at densities 1/2, 1/5, 1/12; non-trivial = distinct (source, seed, density, kinds) with at least one comment placed"
 	srcs := oracleSources(c, c.N(14), 6000)
 	kinds := []string{"b", "bl", "bln", "bn"}
 	pointsHit := map[string]bool{}
 	for _, src := range srcs {
-		for _, dens := range []int{2, 5, 12} {
+		for _, dens := range []int{1, 2, 5, 12} {
 			in := c04Input{Src: src, Seed: c.Rng.Int63(), Dens: dens, Kinds: kinds[c.Rng.Intn(len(kinds))]}
+			if dens == 1 {
+				in.Kinds = "b" // saturation: a block comment on every point of every node
+			}
 			c.Res.Evaluations++
 			c.Res.seen(fmt.Sprint(in.Seed))
 			c.Res.hist("c04-kinds", in.Kinds)
